@@ -71,37 +71,16 @@ struct Run {
     const size_t K = p.threads.size();
     solo.resize(K);
     got.resize(K);
-    // sequences each engine yields alone + input-only clauses on the same draws
+    // the sequence each engine yields alone was computed by a cold child process (Scenario::reference): hidden process-global
+    // state of the code under test (a static cache, say) is neither warmed by the reference computation nor shared with it
     {
-      dsim::Observer ob(1ull << 40);
-      Gen same{mn, mx, alpha};
-      Gen copy{*g};
-      Gen tmp{*g};
-      Gen moved{std::move(tmp)};
+      const std::vector<int64_t> &ref = reference_data();
+      size_t pos = 0;
       for (size_t t = 0; t < K; ++t) {
         const Op &o = p.threads[t][0];
         const int n = static_cast<int>(o.b > 64 ? 64 : o.b);
-        std::mt19937_64 e1{static_cast<uint64_t>(o.a)}, e2{static_cast<uint64_t>(o.a)}, e3{static_cast<uint64_t>(o.a)}, e4{static_cast<uint64_t>(o.a)};
-        for (int i = 0; i < n; ++i) {
-          const Int v = (*g)(e1);
-          solo[t].push_back(v);
-          const Int v2 = same(e2), v3 = copy(e3), v4 = moved(e4);
-          if (v2 != v || v3 != v || v4 != v) {
-            ORACLE("[C19]", "equal-generators-differ", " :: sample %d of engine seed %ld: original %lld, equal parameters %lld, copy %lld, moved %lld", i,
-                   static_cast<long>(o.a), static_cast<long long>(v), static_cast<long long>(v2), static_cast<long long>(v3), static_cast<long long>(v4));
-          }
-        }
-      }
-      if (mx > mn) {
-        bool thrown = false;
-        try {
-          Gen bad{mx, mn, alpha};
-          (void)bad;
-        } catch (const std::exception &) {
-          thrown = true;
-        }
-        dsim::probe(pThrowChecked);
-        if (!thrown) ORACLE("[C19]", "invalid-range-accepted", " :: construction with max < min (%lld, %lld) did not throw", static_cast<long long>(mx), static_cast<long long>(mn));
+        for (int i = 0; i < n && pos < ref.size(); ++i) solo[t].push_back(static_cast<Int>(ref[pos++]));
+        if (static_cast<int>(solo[t].size()) != n) dsim::fail("[harness] zipf-reference-missing", "reference data incomplete");
       }
     }
     // byte image of the shared generator before the concurrent phase
@@ -136,6 +115,39 @@ struct Run {
       }
     }
     dsim::probe(pSharedReads);
+    // input-only clauses on the same draws (no schedule involved): equal parameters / copy / moved-to generators give the same outputs,
+    // max < min is rejected
+    {
+      dsim::Observer ob(1ull << 40);
+      Gen same{mn, mx, alpha};
+      Gen copy{*g};
+      Gen tmp{*g};
+      Gen moved{std::move(tmp)};
+      for (size_t t = 0; t < K; ++t) {
+        const Op &o = p.threads[t][0];
+        std::mt19937_64 e1{static_cast<uint64_t>(o.a)}, e2{static_cast<uint64_t>(o.a)}, e3{static_cast<uint64_t>(o.a)}, e4{static_cast<uint64_t>(o.a)};
+        for (size_t i = 0; i < solo[t].size(); ++i) {
+          const Int v = (*g)(e1);
+          const Int v2 = same(e2), v3 = copy(e3), v4 = moved(e4);
+          if (v2 != v || v3 != v || v4 != v || v != solo[t][i]) {
+            ORACLE("[C19]", "equal-generators-differ", " :: sample %zu of engine seed %ld: original %lld (alone, cold process: %lld), equal parameters %lld, copy %lld, moved %lld",
+                   i, static_cast<long>(o.a), static_cast<long long>(v), static_cast<long long>(solo[t][i]), static_cast<long long>(v2),
+                   static_cast<long long>(v3), static_cast<long long>(v4));
+          }
+        }
+      }
+      if (mx > mn) {
+        bool thrown = false;
+        try {
+          Gen bad{mx, mn, alpha};
+          (void)bad;
+        } catch (const std::exception &) {
+          thrown = true;
+        }
+        dsim::probe(pThrowChecked);
+        if (!thrown) ORACLE("[C19]", "invalid-range-accepted", " :: construction with max < min (%lld, %lld) did not throw", static_cast<long long>(mx), static_cast<long long>(mn));
+      }
+    }
     delete g;
   }
 };
@@ -166,6 +178,35 @@ void entry(void *)
     case 1: run_typed<uint64_t>(p); break;
     case 2: run_typed<int32_t>(p); break;
     default: run_typed<int64_t>(p); break;
+  }
+}
+
+// executed in a cold forked child without any simulation: the sequences each thread's engine yields when the generator is used alone
+template <class Gen, class Int>
+void reference_typed(const Program &p, std::vector<int64_t> &out)
+{
+  const Int mn = static_cast<Int>(p.params[2]), mx = static_cast<Int>(p.params[3]);
+  const double alpha = static_cast<double>(p.params[4]) / 1000.0;
+  Gen g{mn, mx, alpha};
+  for (auto &t : p.threads) {
+    const Op &o = t[0];
+    const int n = static_cast<int>(o.b > 64 ? 64 : o.b);
+    std::mt19937_64 e{static_cast<uint64_t>(o.a)};
+    for (int i = 0; i < n; ++i) out.push_back(static_cast<int64_t>(g(e)));
+  }
+}
+template <class Int>
+void reference_int(const Program &p, std::vector<int64_t> &out)
+{
+  if (p.params[0] == 0) reference_typed<ZipfDistribution<Int>, Int>(p, out); else reference_typed<ApproxZipfDistribution<Int>, Int>(p, out);
+}
+void reference(const Program &p, std::vector<int64_t> &out)
+{
+  switch (p.params[1]) {
+    case 0: reference_int<uint32_t>(p, out); break;
+    case 1: reference_int<uint64_t>(p, out); break;
+    case 2: reference_int<int32_t>(p, out); break;
+    default: reference_int<int64_t>(p, out); break;
   }
 }
 
@@ -238,6 +279,6 @@ void process_init()
 }
 }  // namespace
 
-const Scenario kZipfScenario = {"zipf", generate, entry, render, tags_for_runtime_class, kProbeNames, process_init};
+const Scenario kZipfScenario = {"zipf", generate, entry, render, tags_for_runtime_class, kProbeNames, process_init, reference};
 
 }  // namespace sim
